@@ -142,7 +142,7 @@ def check(prop, tier, seed):
     impl = model = verdict = {}
     if bindir and not any('extraction' in p or 'ocaml driver' in p for p in proof['problems']) and os.path.exists(build.DRIVER):
         impl, model, verdict = runner.evaluate(prop, prop, lines, bindir, obs_bin=spec.obs_bin,
-                                               timeout=spec.timeout.get(tier, 300 if tier == 'quick' else 3600))
+                                               timeout=spec.timeout.get(tier, 150 if tier == 'quick' else 3600))
         for c in cases:
             iv, mv, v = impl.get(c.cid, {}), model.get(c.cid, {}), verdict.get(c.cid, 'FAIL clause=no-verdict')
             if v.startswith('SKIP'):
@@ -194,7 +194,7 @@ def check(prop, tier, seed):
         if spec.needs_release and reldir:
             # the same cases on the release build (wrapping arithmetic, no debug assertions)
             impl_r, _, verdict_r = runner.evaluate(prop, prop + '-release', lines, reldir, obs_bin=spec.obs_bin,
-                                                   timeout=spec.timeout.get(tier, 300 if tier == 'quick' else 3600), want_model=False)
+                                                   timeout=spec.timeout.get(tier, 150 if tier == 'quick' else 3600), want_model=False)
             stats['release_build_cases'] = len(verdict_r)
             for c in cases:
                 vr = verdict_r.get(c.cid, '')
